@@ -456,7 +456,7 @@ var c15Breaks = []string{"\n", "\r", "\r\n", "\u2028", "\u2029", "\u0085"}
 // TestC15Diagnostics: rejected inputs, multi-line layouts, every line-break form,
 // errors at the very end of the text.
 func TestC15Diagnostics(t *testing.T) {
-	run := h.Begin("C15", "diagnostics", "rapid: (i) generated programs with one or two token-level mutations, (ii) token soups over the full alphabet, (iii) truncated valid programs (error at the very end), all laid out over several lines with random line-break forms including a trailing break; oracle: every diagnostic inside the text and the error string equal to 'pos(line, column) error(code) message' built from the first diagnostic with line/column from a direct count; the diagnostics, positions and line table held for the previously generated text are unchanged afterwards; counted only when a SourceCode with diagnostics is returned; non-trivial: first diagnostic not on line 0, or text with >=2 line-break forms / CRLF / trailing break; distinct by text")
+	run := h.Begin("C15", "diagnostics", "rapid: (i) generated programs with one or two token-level mutations, (ii) token soups over the full alphabet, (iii) truncated valid programs (error at the very end), all laid out over several lines with random line-break forms including a trailing break, optionally with string literals that continue over a line end after a backslash; oracle: every diagnostic inside the text and the error string equal to 'pos(line, column) error(code) message' built from the first diagnostic with line/column from a direct count; the diagnostics, positions and line table held for the previously generated text are unchanged afterwards; counted only when a SourceCode with diagnostics is returned; non-trivial: first diagnostic not on line 0, or text with >=2 line-break forms / CRLF / trailing break; distinct by text")
 	defer run.End(t)
 	h.RapidSetup(h.N(6000, 1500000), "c15diag")
 	rapid.Check(t, func(rt *rapid.T) {
@@ -490,6 +490,12 @@ func TestC15Diagnostics(t *testing.T) {
 			}
 			toks = toks[:rapid.IntRange(0, len(toks)).Draw(rt, "cut")]
 			toks = append(toks, rapid.SampledFrom([]string{"+", "(", "[", ",", "?", "a ? b :", ".", "f(", "'x", "1e", "="}).Draw(rt, "tail"))
+		}
+		// string literals that run over a line end through a backslash (the line break still counts as one)
+		for k := rapid.IntRange(0, 2).Draw(rt, "ncont"); k > 0 && rapid.IntRange(0, 2).Draw(rt, "cont?") == 0; k-- {
+			lit := rapid.SampledFrom([]string{"'x\\\ny'", "\"a\\\r\nb\"", "'\\\u2028'", "'p\\\u0085q'", "'\\\r'", "'\\\n\\\n'", "'u\\\u2029v' + 'w\\\nz'"}).Draw(rt, "contlit")
+			at := rapid.IntRange(0, len(toks)).Draw(rt, "contat")
+			toks = append(toks[:at:at], append([]string{lit}, toks[at:]...)...)
 		}
 		var sb strings.Builder
 		sep := func(label string) string {
